@@ -3,6 +3,7 @@ package model
 import (
 	"encoding/json"
 	"fmt"
+	"regexp"
 	"strings"
 	"sync"
 	"time"
@@ -117,8 +118,32 @@ func Time(t time.Time) *time.Time {
 	return &t
 }
 
+// Params joins the parameters of a run into the string that is recorded with
+// its status. Retry and restart parse this string again, so every parameter
+// is written in the syntax the parser reads back to the same value: a value
+// that is empty or contains blanks or quotes is quoted.
 func Params(params []string) string {
-	return strings.Join(params, " ")
+	quoted := make([]string, 0, len(params))
+	for _, p := range params {
+		quoted = append(quoted, quoteParam(p))
+	}
+	return strings.Join(quoted, " ")
+}
+
+var namedParamRe = regexp.MustCompile("^([^\\s=\"`]+)=((?s).*)$")
+
+func quoteParam(param string) string {
+	if m := namedParamRe.FindStringSubmatch(param); m != nil {
+		return m[1] + "=" + quoteParamValue(m[2])
+	}
+	return quoteParamValue(param)
+}
+
+func quoteParamValue(value string) string {
+	if value != "" && !strings.ContainsAny(value, " \t\r\n\v\f\"") {
+		return value
+	}
+	return `"` + strings.ReplaceAll(value, `"`, `\"`) + `"`
 }
 
 type PID int
